@@ -5,68 +5,10 @@
 (*    encoded content for every generated file, and the reader model's content equals it;    *)
 (*  - replay: the real loaded object = the reader model's object, then save/load generations *)
 (*    from it (content preserved, generation 2 bytes = generation 3 bytes).                  *)
-EXTENDS EzApi, Json
+EXTENDS EzContents, Json
 CONSTANTS Variant,         \* "layout" | "patterns" : which family of files this run generates
           Full             \* layout family: TRUE = every content x every layout; FALSE = all layouts for three contents, three layouts for the others
 
-p1 == <<112,49>>  p2 == <<80,50>>  a1 == <<97,49>>  a2 == <<65,50>>
-(* ---- contents: objects as a foreign writer might hold them ---- *)
-SetP(o, gn, pn, q) == [o EXCEPT !.grp = PutParam(o.grp, gn, pn, q)]
-AddP(o, gn, q) == LET gi == GroupIdx(o.grp, gn) IN [o EXCEPT !.grp[gi].p = Append(@, q)]
-AddG(o, g) == [o EXCEPT !.grp = Append(@, g)]
-BuildR(pn, an, ns, nf, prate, arate) ==
-  LET o0 == DefaultObject
-      o1 == SetP(o0, sPOINT, sRATE, SetFloats(GetParam(o0.grp, sPOINT, sRATE), <<prate>>))
-      o2 == SetP(o1, sANALOG, sRATE, SetFloats(GetParam(o1.grp, sANALOG, sRATE), <<arate>>))
-      o3 == UpdateParameters([o2 EXCEPT !.hdr = UpdateHeader(o2.hdr, o2.grp, <<>>, TRUE)], <<>>, pn, an)
-      frames == [f \in 1..nf |-> MkFrame(pn, IF an = <<>> THEN 0 ELSE ns, an, f)]
-  IN UpdateParameters(o3, frames, <<>>, <<>>)
-Build(pn, an, ns, nf) == BuildR(pn, an, ns, nf, FOfNat(100), FOfNat(100 * (IF ns = 0 THEN 1 ELSE ns)))
-\* 59.94 Hz points, 3 x 59.94 Hz analogs as the nearest floats: the exact quotient of the two floats is 2.99999994, the single-precision
-\* division the reader performs gives 3.0 (header word: 3 sub-frames)
-C_ntsc == BuildR(<<p1>>, <<a1>>, 3, 2, <<143, 194, 111, 66>>, <<235, 209, 51, 67>>)
-MkP(n, d, l, t, dim, v) == [n |-> n, d |-> d, l |-> l, t |-> t, dim |-> dim, v |-> v]
-LongDesc(n) == [i \in 1..n |-> 65 + (i % 26)]
-ExtraGroup ==
-  [n |-> <<77, 105, 120, 101, 100>>, d |-> <<103, 114, 112>>, l |-> 1, p |-> <<      \* "Mixed", locked, with a description
-     MkP(<<66, 89, 84, 69, 83>>, <<>>, 0, TBYTE, <<3>>, <<0, 127, -128>>),            \* byte-typed values
-     MkP(<<67, 117, 98, 101>>, LongDesc(130), 1, TINT, <<2, 1, 3>>, <<1, -2, 3, -4, 32767, -32768>>),   \* 3-D, 130-character description, locked
-     MkP(<<72, 69, 76, 76, 79>>, <<>>, 0, TCHAR, <<8>>, <<<<104, 101, 108, 108, 111>>>>),               \* padded one-dimensional string
-     MkP(<<84, 88, 84>>, <<>>, 0, TCHAR, <<4, 2>>, <<<<97, 98>>, <<>>>>),                               \* padded cells, one of them empty
-     MkP(<<69, 77, 80, 84, 89>>, <<>>, 0, TFLOAT, <<0>>, <<>>),
-     MkP(<<70, 76, 84>>, <<>>, 0, TFLOAT, <<2>>, <<<<0, 0, 128, 127>>, <<1, 0, 0, 128>>>>),             \* +inf, negative denormal
-     MkP(<<79, 78, 69>>, <<>>, 0, TCHAR, <<1>>, <<<<122>>>>),
-     MkP(<<76, 79, 78, 71>>, <<>>, 0, TCHAR, <<200>>, <<<<104, 105>>>>) >>]                              \* one-dimensional text declared 200 long, holding "hi"                                        \* one character
-WithEvents(o) == [o EXCEPT !.hdr.nev = 2, !.hdr.evt = [i \in 1..18 |-> IF i = 1 THEN <<0, 0, 128, 63>> ELSE IF i = 2 THEN <<0, 0, 32, 65>> ELSE FZero],
-                           !.hdr.evd = [i \in 1..9 |-> IF i = 1 THEN 257 ELSE 0],
-                           !.hdr.evl = [i \in 1..18 |-> IF i = 1 THEN <<69, 86, 84, 49>> ELSE IF i = 2 THEN <<69, 50>> ELSE <<>>], !.hdr.gap = 65535]
-\* first frame number 5: header first/last shifted, POINT:FRAMES unchanged
-Shifted(o) == [o EXCEPT !.hdr.first = 4, !.hdr.last = 4 + Len(o.frm) - 1]
-\* one label fewer / one more than points in use: the reader falls back to unlabeled_point_<i>
-Relabel(o, k) ==
-  LET lab == GetParam(o.grp, sPOINT, sLABELS)
-      nl == IF k < 0 THEN SubSeq(lab.v, 1, Len(lab.v) - 1) ELSE Append(lab.v, <<120, 120>>)
-      names == [i \in 1..Len(lab.v) |-> IF i <= Len(nl) THEN nl[i] ELSE UnlabeledP(i - 1)]
-      o1 == SetP(o, sPOINT, sLABELS, SetStrs(lab, nl))
-  IN [o1 EXCEPT !.frm = [f \in 1..Len(o.frm) |-> [o.frm[f] EXCEPT !.p = [i \in 1..Len(@) |-> [@[i] EXCEPT !.n = names[i]]]]]]
-\* the same for channels: fewer / more ANALOG:LABELS than channels in use (unlabeled_analog_<i>)
-RelabelA(o, k) ==
-  LET lab == GetParam(o.grp, sANALOG, sLABELS)
-      nl == IF k < 0 THEN SubSeq(lab.v, 1, Len(lab.v) - 1) ELSE Append(lab.v, <<121, 121>>)
-      names == [i \in 1..Len(lab.v) |-> IF i <= Len(nl) THEN nl[i] ELSE UnlabeledA(i - 1)]
-      o1 == SetP(o, sANALOG, sLABELS, SetStrs(lab, nl))
-  IN [o1 EXCEPT !.frm = [f \in 1..Len(o.frm) |-> [o.frm[f] EXCEPT !.a = [s \in 1..Len(@) |-> [i \in 1..Len(@[s]) |-> [@[s][i] EXCEPT !.n = names[i]]]]]]]
-\* "Optotrak": an ANALOG group without any parameter (only meaningful without channels)
-AnalogEmpty(o) == [o EXCEPT !.grp[GroupIdx(o.grp, sANALOG)].p = <<>>]
-\* a parameter record longer than 32767 bytes (the next-offset is an unsigned 16-bit word)
-BigGroup == [n |-> <<67, 65, 76, 73, 66>>, d |-> <<>>, l |-> 0, p |-> <<
-               MkP(<<84, 65, 66, 76, 69>>, <<116>>, 0, TFLOAT, <<128, 65>>, [i \in 1..8320 |-> <<i % 256, (i \div 256) % 256, 128, 63>>]),
-               MkP(<<65, 70, 84, 69, 82>>, <<>>, 0, TINT, <<2>>, <<7, -7>>) >>]
-C_small  == Build(<<p1>>, <<a1>>, 2, 1)
-C_two    == Build(<<p1, p2>>, <<a1, a2>>, 1, 2)
-C_pts    == Build(<<p1, p2>>, <<>>, 0, 2)
-C_ana    == Build(<<>>, <<a1>>, 2, 2)
-C_none   == Build(<<>>, <<>>, 0, 0)
 Contents == <<   \* (small: pre-evaluated once)
   C_small, AddG(C_small, ExtraGroup), WithEvents(C_two), Shifted(C_two), Relabel(C_two, -1), Relabel(C_pts, 1),
   AnalogEmpty(C_pts), C_ana, C_none, AddG(C_none, ExtraGroup), RelabelA(C_ana, -1), RelabelA(C_two, -1), RelabelA(C_small, 1), AddG(C_pts, BigGroup), C_ntsc >>
@@ -88,19 +30,20 @@ NLayoutFiles == IF Full THEN NC * 8 ELSE 24 + (NC - 3) * 3
 \* index of the k-th selected (content, layout) pair in the full enumeration
 LayoutSelIdx(k) == IF Full \/ k <= 24 THEN k ELSE (3 + (k - 25) \div 3) * 8 + <<1, 5, 8>>[((k - 25) % 3) + 1]
 (* ---- C12: bit patterns ---- *)
-IntParam(name, lo) == MkP(name, <<>>, 0, TINT, <<128, 8>>, [i \in 1..1024 |-> lo + i - 1])
-ByteParam(x) == MkP(<<66>>, <<>>, 0, TBYTE, <<128, 2>>, [i \in 1..256 |-> i - 129])
+IntParam(name, lo, dims) == MkP(name, <<>>, 0, TINT, dims, [i \in 1..1024 |-> lo + i - 1])
+ByteParam(x) == MkP(<<66>>, <<>>, 0, TBYTE, <<16, 8, 2>>, [i \in 1..256 |-> i - 129])
 IntFile(k) == AddG(C_none, [n |-> <<73, 78, 84, 83>>, d |-> <<>>, l |-> 0, p |->
-                 [j \in 1..4 |-> IntParam(<<73, 48 + j>>, -32768 + ((k - 1) * 4 + (j - 1)) * 1024)]])
+                 [j \in 1..4 |-> IntParam(<<73, 48 + j>>, -32768 + ((k - 1) * 4 + (j - 1)) * 1024,
+                                          IF j = 4 THEN <<128, 4, 2>> ELSE IF j = 3 THEN <<16, 4, 4, 4>> ELSE <<128, 8>>)]])      \* 2-D, 3-D and 4-D arrays)
 \* float patterns: every exponent with both signs, mantissa 0 / 1 / all ones / arbitrary
 FPat(sign, e, m) == LET mant == IF m = 0 THEN 0 ELSE IF m = 1 THEN 1 ELSE IF m = 2 THEN 8388607 ELSE 5592405 IN
                     <<mant % 256, (mant \div 256) % 256, (mant \div 65536) + (e % 2) * 128, (e \div 2) + sign * 128>>
 FloatFile(sign, m) ==
-  LET o == Build(<<p1, p2>>, <<a1>>, 1, 32)
+  LET o == Build(<<cp1, cp2>>, <<ca1>>, 1, 32)
       val(f, i, c) == FPat(sign, ((f - 1) * 8 + (i - 1) * 4 + (c - 1)) % 256, m)
       o1 == [o EXCEPT !.frm = [f \in 1..32 |-> [@[f] EXCEPT !.p = [i \in 1..2 |-> [@[i] EXCEPT !.v = [c \in 1..4 |-> val(f, i, c)]]],
                                                             !.a = [s \in 1..1 |-> [i \in 1..1 |-> [@[s][i] EXCEPT !.v = FPat(1 - sign, (f * 8 - 1) % 256, m)]]]]]]
-      o2 == AddG(o1, [n |-> <<70>>, d |-> <<>>, l |-> 0, p |-> <<MkP(<<70, 80>>, <<>>, 0, TFLOAT, <<128, 2>>, [i \in 1..256 |-> FPat(sign, i - 1, m)])>>])
+      o2 == AddG(o1, [n |-> <<70>>, d |-> <<>>, l |-> 0, p |-> <<MkP(<<70, 80>>, <<>>, 0, TFLOAT, <<32, 4, 2>>, [i \in 1..256 |-> FPat(sign, i - 1, m)])>>])
   IN [o2 EXCEPT !.hdr.evt = [i \in 1..18 |-> FPat(sign, (i * 14) % 256, m)]]
 HeaderWordFile(w) == [C_none EXCEPT !.hdr.gap = w, !.hdr.klp = w, !.hdr.fbkl = w, !.hdr.fcp = w, !.hdr.nev = w, !.hdr.evd = [i \in 1..9 |-> IF i % 2 = 1 THEN w ELSE 65535 - w]]
 WordValues == <<0, 1, 2, 127, 128, 255, 256, 32767, 32768, 65535>>
